@@ -15,7 +15,8 @@ FUNCS = ['main:main', 'main:file_input_main', 'main:piped_input_main', 'backends
          'backends.libwayland_debug_output.parse:into_sink', 'frontends.tui.terminal_ui:TerminalUI.run_until_stopped']
 
 POOL = ['[1000.100] <1>  -> wl_display#1.get_registry(new id wl_registry#2)', '[1000.200] <2> wl_display#1.get_registry(new id wl_registry#2)', 'program chatter',
-        '', '[1000.300] <1>  -> wl_display#1.sync(new id wl_callback#3)', '   indented  ']
+        '', '[1000.300] <1>  -> wl_display#1.sync(new id wl_callback#3)', '   indented  ',
+        'form\x0cfeed \x1c and \u2028 separators \x85 inside a line', '[1000.400] <2> wl_display#1.error(wl_display#1, 1, "a\x0bb\u2029c")']
 
 
 class Deadlock(Exception):
@@ -96,14 +97,15 @@ class Worker:
 
 
 class FakeTextIO:
-    def __init__(self, pipe=None, text=None):
+    def __init__(self, pipe=None, text=None, kind='pipe'):
+        self.kind = kind
         self.pipe = pipe if pipe is not None else Pipe()
         if text is not None:
             self.pipe.buf = text
             self.pipe.write_open = False
         self.closed = False
 
-    def readline(self):
+    def readline(self, size=-1):
         p = self.pipe
         while True:
             i = p.buf.find('\n')
@@ -118,6 +120,44 @@ class FakeTextIO:
 
     def close(self):
         self.closed = True
+
+    # the rest of the text-file interface, with the semantics of io.TextIOWrapper (universal newlines: only \\n ends a line)
+    def seekable(self):
+        return self.kind == 'file'
+
+    def readable(self):
+        return True
+
+    def isatty(self):
+        return False
+
+    def read(self, size=-1):
+        out = ''
+        while True:
+            l = self.readline()
+            if l == '':
+                return out
+            out += l
+
+    def readlines(self, hint=-1):
+        out = []
+        while True:
+            l = self.readline()
+            if l == '':
+                return out
+            out.append(l)
+
+    def __iter__(self):
+        return self
+
+    def __next__(self):
+        l = self.readline()
+        if l == '':
+            raise StopIteration
+        return l
+
+    def fileno(self):
+        return 1001
 
     def __enter__(self):
         return self
@@ -203,7 +243,7 @@ def modes(ctx, case):
         code = None
         try:
             if mode == 'file':
-                main.open = lambda path, *a, **k: FakeTextIO(text=text)
+                main.open = lambda path, *a, **k: FakeTextIO(text=text, kind='file')
                 main.main(mkargs(Mode.LOAD_FROM_FILE, 'some.log'), output, input_func)
             elif mode == 'pipe':
                 class S:
